@@ -25,3 +25,7 @@ def register(reg):
 
     reg.object_invariant("UnaryOperationRelation", "no-placeholder-operation", unary_node_ops)
     reg.object_invariant("BinaryOperationRelation", "no-placeholder-operation", binary_node_ops)
+
+    # every operation node is well-formed on its target's columns (established by _begin_apply / commute)
+    reg.object_invariant("UnaryOperationRelation", "operation-valid-on-target",
+                         lambda c, o: B(V.uvalid(c.attr(o, "operation").z, c.attr(c.attr(o, "target"), "columns").z)))
